@@ -5,6 +5,7 @@ import Klev.Proofs.HelpersOK
 import Klev.Proofs.CompactPure
 import Klev.Proofs.CompactOK
 import Klev.Proofs.Reach
+import Klev.Proofs.Witness
 namespace Klev.C16
 
 /-- `FindUpdates` selects exactly the scanned messages (not newer than the cut-off, up to
@@ -206,6 +207,70 @@ theorem compaction_reachable (oo : OpenOpts) (ops : List Op) (t : Int) (multi : 
   exact ⟨l0, ho, ⟨a1, a5, a6⟩, ⟨b1, b5, b6⟩⟩
 
 end Klev.C16
+
+/-! ### Non-vacuity
+
+The theorems at the witness log `Witness.wL` (`Klev/Proofs/Witness.lean`): live messages
+`0 k1`, `1 k2`, `2 k1`, `4 k6 (no value)`, `5 k4`, `6 k1`, `8 k2` with times 10 20 20 30 30 40 50 —
+key `[1]` three times, key `[2]` twice, a value-less message that is the only one of its key;
+read-write; times non-decreasing. `FindUpdates` selects 0, 1, 2; `FindDeletes` selects 4. -/
+section NonVacuity
+open Klev Klev.Witness Klev.Helpers
+
+example := Klev.C16.findUpdates_ok wL wL_inv 100
+example := Klev.C16.findUpdates_ok wL wL_inv 30
+example := Klev.C16.findDeletes_ok wL wL_inv 100
+example := Klev.C16.mem_hasLaterSameKey (L := (abs wL).live) wL_wf.1 (d := ⟨0, 10, [1], [1]⟩) (by decide)
+example := Klev.C16.mem_firstOfKeyNoValue (L := (abs wL).live) wL_wf.1 (d := ⟨4, 30, [6], []⟩) (by decide)
+example := Klev.C16.latest_removeAll_of_later (abs wL)
+  ⟨Spec.removeAll (abs wL).live [⟨0, 10, [1], [1]⟩, ⟨2, 20, [1], [3]⟩], 9⟩ wL_wf
+  [⟨0, 10, [1], [1]⟩, ⟨2, 20, [1], [3]⟩] rfl (by decide)
+example := Klev.C16.latest_removeAll_of_first_novalue (abs wL)
+  ⟨Spec.removeAll (abs wL).live [⟨4, 30, [6], []⟩], 9⟩ wL_wf [⟨4, 30, [6], []⟩] rfl (by decide)
+-- a strict subset of the selection (what a single-mode pass or a failed pass leaves)
+example := Klev.C16.compactUpdates_latest (abs wL)
+  ⟨Spec.removeAll (abs wL).live [⟨0, 10, [1], [1]⟩, ⟨1, 20, [2], [2]⟩], 9⟩ wL_wf 100
+  [⟨0, 10, [1], [1]⟩, ⟨1, 20, [2], [2]⟩] (by decide) rfl
+example := Klev.C16.compactDeletes_latest (abs wL)
+  ⟨Spec.removeAll (abs wL).live [⟨4, 30, [6], []⟩], 9⟩ wL_wf 100 [⟨4, 30, [6], []⟩] (by decide) rfl
+example := Klev.C16.compactUpdatesMulti_one_per_key (abs wL)
+  ⟨Spec.removeAll (abs wL).live [⟨0, 10, [1], [1]⟩, ⟨1, 20, [2], [2]⟩, ⟨2, 20, [1], [3]⟩], 9⟩ wL_wf wL_mono 100
+  [⟨0, 10, [1], [1]⟩, ⟨1, 20, [2], [2]⟩, ⟨2, 20, [1], [3]⟩] rfl (by decide)
+example := Klev.C16.findUpdates_eq wL wL_inv 100
+example := Klev.C16.findDeletes_eq wL wL_inv 100
+example := Klev.C16.compactUpdates_model wL wL_inv 100 true
+example := Klev.C16.compactUpdates_model wL wL_inv 100 false
+example := Klev.C16.compactUpdates_model wRO wRO_inv 100 true
+example := Klev.C16.compactDeletes_model wL wL_inv 100 false
+example := Klev.C16.thenDelete_multi_complete wL (wL.get 0).1 (Klev.get_loaded wL wL_inv 0) wL_rw [0, 2, 1]
+  (by decide)
+example := Klev.C16.compactUpdatesMulti_model wL wL_inv wL_rw 100 wL_mono
+example := Klev.C16.compactDeletesMulti_model wL wL_inv wL_rw 100
+example := Klev.C16.compact_latest wL wL_inv 100 100 true true
+example := Klev.C16.compact_latest' wL wL_inv 30 100 false true
+example := Klev.C16.compaction_reachable oo ops 100 true
+
+-- evaluated
+example : (findUpdates wL 100).2 = .ok [0, 2, 1] ∧ (findUpdates wL 30).2 = .ok [0] ∧
+    (findDeletes wL 100).2 = .ok [4] ∧ (findDeletes wL 20).2 = .ok [] := by decide
+example : ([[1], [2], [3], [4], [6]] : List (List UInt8)).map (Spec.latest (abs wL)) =
+    [some [6], some [8], none, some [5], none] := by decide
+-- CompactUpdatesMulti removes 0 1 2 (one message per key is left), CompactUpdates only what the
+-- first `Delete` serves (segment 0); the latest values are the same
+example : (thenDelete true (findUpdates wL 100)).2.msgs.map (·.off) = [0, 1, 2] ∧
+    (abs (thenDelete true (findUpdates wL 100)).1).live.map (fun m => (m.off, m.key)) =
+      [(4, [6]), (5, [4]), (6, [1]), (8, [2])] ∧
+    (thenDelete false (findUpdates wL 100)).2.msgs.map (·.off) = [0, 1] ∧
+    ([[1], [2], [3], [4], [6]] : List (List UInt8)).map (Spec.latest (abs (thenDelete true (findUpdates wL 100)).1)) =
+      [some [6], some [8], none, some [5], none] := by decide
+-- Compact = CompactUpdates then CompactDeletes: offsets 0 1 2 and then 4 go
+example : (abs (thenDelete true (findDeletes (thenDelete true (findUpdates wL 100)).1 100)).1).live.map (·.off) =
+    [5, 6, 8] ∧
+    ([[1], [2], [3], [4], [6]] : List (List UInt8)).map
+      (Spec.latest (abs (thenDelete true (findDeletes (thenDelete true (findUpdates wL 100)).1 100)).1)) =
+      [some [6], some [8], none, some [5], none] := by decide
+
+end NonVacuity
 
 #print axioms Klev.C16.findUpdates_ok
 #print axioms Klev.C16.findDeletes_ok
